@@ -13,6 +13,9 @@ NAMES = ["alpha", "b_id", "name", "dataset_size", "flag"]
 ABSENT = object()
 NONE = "```(None)```"  # the project's NoneStr
 
+LONG_LITERAL = "Literal['categorical cross entropy', 'mean squared error', 'mean absolute error', 'binary cross entropy', 'hinge']"
+LONG_UNION = "Optional[Union[Dict[str, List[int]], List[Tuple[str, int]], Callable[[int, str], Optional[float]], Tuple[int, int]]]"
+
 SHAPES = {
     "int": [ABSENT, 0, 5, -3],
     "float": [ABSENT, 2.5, -1e-07, 1e16],
@@ -29,6 +32,9 @@ SHAPES = {
     "Optional[dict]": [NONE],
     "Optional[float]": [NONE, 0.5, 0.0],
     "Optional[bool]": [NONE, False],
+    # type strings long enough for the emitters' word-wrapper (100 columns) to break them
+    LONG_LITERAL: [ABSENT, "hinge"],
+    LONG_UNION: [NONE],
 }
 DOCS = ["the {name}", "The {name} of it.", "number of things, with a comma", ""]
 
